@@ -159,9 +159,9 @@ def lean_audit(prop, theorems, imports, targets=None):
     text = p.stdout
     for th in theorems:
         st.theorems[th] = None
-    for m in re.finditer(r"'([^']+)' depends on axioms: \[([^\]]*)\]", text):
+    for m in re.finditer(r"'(\S+)' depends on axioms: \[([^\]]*)\]", text):
         st.theorems[m.group(1)] = [a.strip() for a in m.group(2).replace("\n", " ").split(",") if a.strip()]
-    for m in re.finditer(r"'([^']+)' does not depend on any axioms", text):
+    for m in re.finditer(r"'(\S+)' does not depend on any axioms", text):
         st.theorems[m.group(1)] = []
     for th in theorems:
         ax = st.theorems.get(th)
